@@ -102,6 +102,22 @@ Theorem C03_zero_position_refuted :
     snd (sub_cache 0 false (fun _ => false) HNone hB 0 0 1 0 []) = ROk false [] 0 1.
 Proof. eexists. split; [vm_compute; reflexivity|]. vm_compute. repeat split; reflexivity. Qed.
 
+(* third deviation (finding key cache-gap-disconnect): the newest VISIBLE
+   publication (offset 1) is older than a filtered one (offset 2); a visible
+   publication (offset 3) arrives while the subscribe runs: MergePublications
+   sees a gap between 1 and 3 (cache recovery adds no marker for the filtered
+   offset 2) and the subscribe ends in DisconnectInsufficientState (3010) *)
+Definition p5t (id : N) := (id, p5).
+Theorem C03_gap_disconnect_refuted :
+  snd (sub_cache 0 true (fun id => id =? 2) HNo hA 0 0 1 0 [p5t 3]) = RErr 3010.
+Proof. vm_compute. reflexivity. Qed.
+
+(* the populate path with filters: the handler stores a visible then a filtered
+   publication; the visible one is delivered *)
+Example C03_populate_filtered :
+  snd (sub_cache 0 true (fun id => id =? 8) (HPopulate [p5t 7; p5t 8]) hB 0 0 0 0 []) = ROk true [mkItem 1 7] 0 1.
+Proof. vm_compute. reflexivity. Qed.
+
 (* non-vacuity of the positive theorems *)
 Example C03_examples :
   snd (sub_cache 0 false (fun _ => false) HNone hA 0 0 0 0 []) = ROk true [mkItem 2 2] 0 1 /\
